@@ -51,12 +51,17 @@ O == T.obs
 (* wit = sequence of <<fine id, ref atom>> for every non-hydrogen fine atom                     *)
 WitMap == [p \in {w[1] : w \in ToSet(T.wit)} |-> (CHOOSE w \in ToSet(T.wit) : w[1] = p)[2]]
 HeavyFine == {n \in FNodes(O) : ~n.isH}
+RefB2(i) == LET bs == {b \in ToSet(T.ref.bonds) : i \in {b[1], b[2]}} IN
+            LET S[X \in SUBSET bs] == IF X = {} THEN 0 ELSE LET x == CHOOSE y \in X : TRUE IN x[3] + S[X \ {x}] IN S[bs]
 C01_Original ==
   /\ DOMAIN WitMap = {n.id : n \in HeavyFine}
   /\ {WitMap[p] : p \in DOMAIN WitMap} = DOMAIN T.ref.atoms
   /\ Cardinality(DOMAIN WitMap) = Len(T.ref.atoms)
+  \* hydrogens: what Chem!Need demands for the reference atom's bonds (the generator's own count only where
+  \* the bonds exceed every usual valence and the property makes no promise)
   /\ \A n \in HeavyFine : LET r == T.ref.atoms[WitMap[n.id]] IN
-        /\ n.el = r[1] /\ n.chg = r[2] /\ HCount(O, n) = r[3]
+        /\ n.el = r[1] /\ n.chg = r[2]
+        /\ HCount(O, n) = IF Fits(r[1], r[2], RefB2(WitMap[n.id])) THEN Need(r[1], r[2], RefB2(WitMap[n.id])) ELSE r[3]
   /\ {<<RPair(WitMap[e[1]], WitMap[e[2]])[1], RPair(WitMap[e[1]], WitMap[e[2]])[2], e[3]>> :
          e \in {f \in FEdges(O) : ~NodeOf(O, f[1]).isH /\ ~NodeOf(O, f[2]).isH}}
        = {<<b[1], b[2], b[3]>> : b \in ToSet(T.ref.bonds)}
